@@ -310,7 +310,7 @@ PROPS = {
         level="proof",
         needs_bita=True,
         required_theorems=["header_layout", "proto_roundtrip", "writer_invariants", "descriptors_unique_first_occurrence", "reader_reports_verbatim", "lib_temp_file_flushed_fact", "cli_sizes_fit_u32_fact", "size_text_denotes", "chunker_options_accepted_iff",
-                           "cli_accepts_only_recordable_options", "cli_requested_is_reported", "cli_metadata_map", "cli_options_with_metadata_ok"],
+                           "cli_accepts_only_recordable_options", "cli_requested_is_reported", "cli_metadata_map", "cli_options_with_metadata_ok", "metadata_reader_and_writer_maps_agree", "decoded_metadata_entries_rebuild_the_written_map"],
         suites=dict(quick=[("py", "c11_conformance"), ("l1", "fmt"), ("l1", "opts")], thorough=[("py", "c11_conformance"), ("l1", "fmt"), ("l1", "opts")]),
         rule="archives of both writers over random sources/configs/hash lengths/compression/metadata (incl. empty key, non-ASCII, long values): "
              "Python conformance checklist on the raw bytes; prost vs model: encode-dict byte-exact, decode-dict field-exact on encodings, "
@@ -331,7 +331,7 @@ PROPS = {
         module="Bita.Props.C12",
         level="proof",
         needs_bita=True,
-        required_theorems=["archive_independent_of_schedule_and_delivery", "lib_temp_file_flushed_fact"],
+        required_theorems=["archive_independent_of_schedule_and_delivery", "lib_temp_file_flushed_fact", "unordered_stage_emits_each_item_once", "unordered_stage_holds_at_most_n"],
         suites=dict(quick=[("py", "c12_determinism")], thorough=[("py", "c12_determinism")]),
         rule="per input 5 (8 thorough) CLI runs varying buffered-chunks, TOKIO_WORKER_THREADS, taskset, file/pipe + 1 library run with "
              "fragmented reads; oracle: one distinct archive per input",
